@@ -1,5 +1,5 @@
 From Coq Require Import List String Bool Arith.
-From YT Require Import Base.Str Base.KV Model.Doc Model.Equals Check.Common.
+From YT Require Export Base.Str Base.KV Model.Doc Model.Equals Check.Common.
 Import ListNotations.
 Local Open Scope list_scope.
 
